@@ -118,13 +118,16 @@ func runC01(rc *RunCtx) {
 		err        error
 	}
 	nConn := 1 + G.Draw(8)
+	if G.Draw(3) == 0 {
+		nConn = 4 + G.Draw(10) // longer usage histories that reorder the MRU / last-IP optimisation
+	}
 	clientIPs := []net.IP{net.IPv4(198, 18, 0, 1).To4(), net.IPv4(198, 18, 0, 2).To4(), net.ParseIP("2001:db8:1::9"), net.IPv4(198, 18, 7, 7).To4()}
 	outsider := mkKey("outsider", cipherNames[G.Draw(4)], "not-in-any-list")
 	conns := make([]*conn, nConn)
 	tgtIP := net.IPv4(93, 184, 216, 34).To4()
 	for k := range conns {
 		k := k
-		c := &conn{k: k, ip: clientIPs[G.Draw(len(clientIPs))]}
+		c := &conn{k: k, ip: clientIPs[G.Draw(1+G.Draw(len(clientIPs)))]} // biased to few IPs shared by several keys
 		switch G.Draw(6) {
 		case 0:
 			c.kind = 1
